@@ -509,3 +509,24 @@ def factor_case(p, res):
                         if want.denominator == 1 and int(got) != int(want):
                             res.viol("utils", f"layers={layers},ratio={num}/{den},ch={ch},complex={cx}", "latent-shape", f"calculate_num_filters_factor_image = {got}, expected {want}")
     res.sample({"grid": "layers<=4 x ratios x channels x complex"})
+
+
+# ----------------------------------------------------------------------------- life-cycle equivalence of the components behind this property
+# (deep copy / pickle / state_dict / eval-train / cast round trip / no_grad ... leave the behaviour unchanged; shared helper kmc/lifecycle.py)
+_cases1, _execute1, _component1 = cases, execute, component_of
+
+
+def cases(tier, seed):  # noqa: F811
+    yield from _cases1(tier, seed)
+    yield f"{PID}|lifecycle", {"kind": "lifecycle", "tier": tier}
+
+
+def execute(p, res):  # noqa: F811
+    if p.get("kind") == "lifecycle":
+        from kmc import lifecycle
+        return lifecycle.run(PID, res)
+    return _execute1(p, res)
+
+
+def component_of(p):  # noqa: F811
+    return "lifecycle" if p.get("kind") == "lifecycle" else _component1(p)
